@@ -18,7 +18,7 @@ BOUND_TEXT = {
     'forced': 'FORCED: choices without a design variable (LINKED members, forced by incompatibilities) before free/conditional choices',
     'conx': 'CONX: constrained choices mutually exclusive or with the first constrained choice inactive while later ones are active, 4 constraint types',
     'conpart': 'CONPART: 4 choices of which 2 are constrained (LINKED / UNORDERED), 2 free',
-    'mix': 'MIX: 14 (quick) / 120 (thorough) seeded random graphs combining 3-5 selection choices nested up to three levels, shared derived nodes, 0-2 incompatibility pairs, an optional choice constraint, design-variable / metric nodes and an optional connection choice below random nodes',
+    'mix': 'MIX: 14 seeded random graphs combining 3-5 selection choices nested up to three levels, shared derived nodes, 0-2 incompatibility pairs, an optional choice constraint, design-variable / metric nodes and an optional connection choice below random nodes',
     'dvmet': 'DV/MET: continuous/discrete design-variable nodes and metric nodes (dir x ref x type) under permanent and conditional nodes',
 }
 
